@@ -5,6 +5,7 @@
 //! restart; plain or cloud-staged persister.
 
 use crate::props::holder::{finish_content, short_err, HSel};
+use crate::props::proto::{Negotiation, ProtoWorld, To};
 use crate::world::*;
 use lightning_signer::bitcoin;
 use lightning_signer::bitcoin::absolute::LockTime;
@@ -220,6 +221,10 @@ pub struct Machine {
     pub stub_pending: Option<usize>,
     pub dead: bool,
     pub onchain_ctr: u32,
+    /// wire blocks: the signer was built by `HandlerBuilder` (as vlsd builds it) and well-formed
+    /// AddBlock / RemoveBlock requests go to its root handler as protocol messages, so that the
+    /// handler's own persistence of the tracker is what a restart finds (plain memory store only)
+    pub pw: Option<ProtoWorld>,
 }
 
 pub struct StepRes {
@@ -249,10 +254,24 @@ impl Machine {
 
     /// `backup`: the node persists through BackupPersister(main, backup) (see World::new_backup)
     pub fn new_mode(cloud: bool, backup: bool, anchors: bool) -> Machine {
+        Self::new_mode_wire(cloud, backup, anchors, false)
+    }
+
+    /// `wire_blocks` (plain memory store only): see `Machine::pw`
+    pub fn new_mode_wire(cloud: bool, backup: bool, anchors: bool, wire_blocks: bool) -> Machine {
         let mut cfg = WorldCfg::default_testnet();
         cfg.policy = policy_for_union();
         let vf: Arc<dyn ValidatorFactory> = Arc::new(SimpleValidatorFactory::new_with_policy(cfg.policy.clone()));
-        let mut w = if backup { World::new_backup(cfg, vf) } else if cloud { World::new_cloud(cfg, vf) } else { World::new_with_factory(cfg, vf) };
+        let pw = if wire_blocks && !cloud && !backup { Some(ProtoWorld::new(cfg.clone(), 6, Negotiation::SignerCap)) } else { None };
+        let mut w = if let Some(pw) = pw.as_ref() {
+            World::from_proto(pw)
+        } else if backup {
+            World::new_backup(cfg, vf)
+        } else if cloud {
+            World::new_cloud(cfg, vf)
+        } else {
+            World::new_with_factory(cfg, vf)
+        };
         // the signer's clock is not on a whole second (keysend records carry sub-second timestamps)
         let t0 = w.clock.now();
         w.clock.set(Duration::new(t0.as_secs(), 900_000_000));
@@ -285,7 +304,7 @@ impl Machine {
         let allow = Address::p2wpkh(&CompressedPublicKey(PublicKey::from_secret_key(&secp, &SecretKey::from_slice(&[9u8; 32]).unwrap())), Network::Testnet);
         let _ = w.txn(|| node.add_allowlist(&[format!("address:{}", allow)]));
         let fund = Self::open_fund_chan(&mut w);
-        Machine { fund, w, st, blocks: vec![], next_dbid: 3, stub_pending: None, dead: false, onchain_ctr: 0 }
+        Machine { fund, w, st, blocks: vec![], next_dbid: 3, stub_pending: None, dead: false, onchain_ctr: 0, pw }
     }
 
     /// A ready outbound channel (no push) whose funding outpoint is output 0 of a transaction
@@ -404,6 +423,26 @@ impl Machine {
             self.dead = true;
         }
         (StepRes { kind, tag, err, muts: muts.map(|m| m.len()) }, out.ok())
+    }
+
+    /// One block request to the root handler (wire blocks).  An AddBlock answered with the orphan
+    /// error code counts as refused.
+    fn wire_block_req(&mut self, kind: &'static str, msg: vls_protocol::msgs::Message) -> (StepRes, Option<()>) {
+        let pw = self.pw.as_mut().expect("wire blocks");
+        let out = match pw.request(To::Root, msg) {
+            Out::Ok(rep) => match rep.as_any().downcast_ref::<vls_protocol::msgs::SignerError>() {
+                Some(e) => Out::Err(Status::invalid_argument(format!("signer error reply, code {}", e.code))),
+                None => Out::Ok(()),
+            },
+            Out::Err(e) => Out::Err(e),
+            Out::Panic(p) => Out::Panic(p),
+        };
+        let tag = out.tag();
+        let err = if out.is_ok() { String::new() } else { short_err(&out.err_msg()) };
+        if out.is_panic() {
+            self.dead = true;
+        }
+        (StepRes { kind, tag, err, muts: None }, out.ok())
     }
 
     fn skip(kind: &'static str) -> StepRes {
@@ -721,12 +760,25 @@ impl Machine {
                     header.prev_blockhash = bitcoin::BlockHash::all_zeros();
                 }
                 let (proof2, prev) = (proof.clone(), tip.clone());
-                let (res, ok) = self.req("add-block", move || {
+                // wire blocks: what a follower can send without ending the signer (the handler
+                // panics on a refused block other than an orphan)
+                let (res, ok) = if self.pw.is_some() && fault % 3 != 2 {
+                    use vls_protocol::msgs;
+                    self.wire_block_req(
+                        "add-block",
+                        msgs::Message::AddBlock(msgs::AddBlock {
+                            header: vls_protocol::serde_bolt::Octets(bitcoin::consensus::serialize(&header)),
+                            unspent_proof: Some(msgs::DebugTxoProof(proof)),
+                        }),
+                    )
+                } else {
+                    self.req("add-block", move || {
                     let mut tracker = node.get_tracker();
                     tracker.add_block(header, proof).map_err(|e| Status::invalid_argument(format!("add_block: {:?}", e)))?;
                     node.get_persister().update_tracker(&node.get_id(), &tracker).map_err(|e| Status::internal(format!("{:?}", e)))?;
                     Ok(())
-                });
+                })
+                };
                 if ok.is_some() {
                     self.blocks.push(BlockRec { header, proof: proof2, prev });
                 }
@@ -745,12 +797,24 @@ impl Machine {
                     }
                     _ => {}
                 }
-                let (res, ok) = self.req("remove-block", move || {
+                let (res, ok) = if self.pw.is_some() && fault % 3 == 0 {
+                    use vls_protocol::msgs;
+                    self.wire_block_req(
+                        "remove-block",
+                        msgs::Message::RemoveBlock(msgs::RemoveBlock {
+                            unspent_proof: Some(vls_protocol::serde_bolt::LargeOctets(bitcoin::consensus::serialize(&proof))),
+                            prev_block_header: prev.0,
+                            prev_filter_header: prev.1,
+                        }),
+                    )
+                } else {
+                    self.req("remove-block", move || {
                     let mut tracker = node.get_tracker();
                     tracker.remove_block(proof, prev).map_err(|e| Status::invalid_argument(format!("remove_block: {:?}", e)))?;
                     node.get_persister().update_tracker(&node.get_id(), &tracker).map_err(|e| Status::internal(format!("{:?}", e)))?;
                     Ok(())
-                });
+                })
+                };
                 if ok.is_some() {
                     self.blocks.pop();
                 }
